@@ -36,6 +36,8 @@ class LoopMixin:
         from .symex import EngineError
         if fr.finfo is None:
             raise EngineError("loop in a specification function")
+        if getattr(node, "_comp_contract", None) is not None:
+            return "comp", node._comp_contract
         c = getattr(fr, "contract", None) or self.contracts.get(fr.finfo.qualname)
         o = self.loop_ordinal(fr, node)
         if c is None or o not in c.loops:
